@@ -28,6 +28,7 @@ EXPLANATION = (
     "decided: the wildcard bit arithmetic of ip_matches_masked_range and IPv4 comparisons (numerical), and "
     "bounded-exhaustive verdict equivalence against a reference filter."
 )
+TECHNIQUE = "static: CFG structure of the scan loop, finite truth tables of the rule matcher and bounds tests over stand-in values, sibling agreement of the three front ends"
 ASSUMPTIONS = ["ACLRule fields are only compared, never mutated, by permit_frame_check (checked: no stores)",
                "pydantic validate_call coerces the add_rule arguments as declared"]
 
